@@ -2,9 +2,77 @@
 Proof: PsV/Props/C02.lean. Tie: bits of ndsplineeval (any bitmask) / ndsplineeval_deriv vs the model at IEEE precision;
 oracle: exact derivative of the tensor-product sum (knot-difference formula applied to the Cox-de Boor spec) in Rat,
 envelope K*u*S' with S' = sum |coef| prod (|a|+|b|) over the terms of every difference."""
-import json
+import json, math, os
+from fractions import Fraction
 from . import C01 as V
 from . import evalcommon as E
+
+def proved_bound(table, prec, flagged, xs, cs, maj, cmax):
+    """Right-hand side of C02_rounded_deriv_near_spec_partial / C02_gradient_rounding_envelope / C02_deriv_orders_rounding_envelope_partial
+    with C01_envelope_linear: gfac eps K <= 2*K*eps (when 2*K*eps <= 1), K = 3 + ndim*(7*maxorder+3) + 2*prod(order_d+1),
+    eps = u/(1-u), u = 2^-53 (double evaluator: operations and stores in double) or 2^-24 (float evaluator: operations in
+    double, stores in float) -- the choice of the C01 check.  The theorem assumes no underflow/overflow; `slack` is the absolute
+    allowance for underflowing stores (C01's term, amplified by the factors 2*order/min(knot difference) of the flagged
+    dimensions, by which an absolute error of a lower-order basis value is multiplied).  Returns (bound_without_slack, slack) or None."""
+    nd = table["ndim"]
+    u = Fraction(1, 2 ** 53) if prec == "d" else Fraction(1, 2 ** 24)
+    eta = Fraction(1, 2 ** 1074) if prec == "d" else Fraction(1, 2 ** 149)
+    eps = u / (1 - u)
+    nterms = 1; maxo = 0
+    for d in table["dims"]: nterms *= d["order"] + 1; maxo = max(maxo, d["order"])
+    K = 3 + nd * (7 * maxo + 3) + 2 * nterms
+    if 2 * K * eps > 1: return None
+    amp = Fraction(1)
+    for d, f, c in zip(table["dims"], flagged, cs):
+        n = d["order"]
+        if f and n > 0:
+            k = d["knots"]
+            dmin = min(Fraction(k[c + i]) - Fraction(k[c + i - n]) for i in range(1, n + 1))
+            if dmin <= 0: return None
+            amp *= max(Fraction(1), 2 * n / dmin)
+    return 2 * K * eps * maj, eta * nterms * (cmax + 1) * (nd + 2) * amp
+
+def interior(table, xs, cs):
+    """hypothesis AllInterior, including the monotonicity of the knots the recurrences touch (indices c-order .. c+order+1)"""
+    if not V.interior(table, xs, cs): return False
+    for d, c in zip(table["dims"], cs):
+        k, o = d["knots"], d["order"]
+        if any(not (k[j] <= k[j + 1]) for j in range(c - o, c + o + 1)): return False
+    return True
+
+def check_proved(ctx, table, c, prec, flagged, xs, cs, v, exact, maj, cmax, st, what):
+    """|impl - exact derivative| <= proved envelope at an interior point (hypothesis AllInterior)."""
+    if v != v or math.isinf(v) or not interior(table, xs, cs): return
+    b = proved_bound(table, prec, flagged, xs, cs, maj, cmax)
+    if b is None: return
+    bound, slack = b
+    key = "proved_lanes" if what.startswith("gradient") else "proved_cases"
+    st[key] = st.get(key, 0) + 1
+    if any(flagged): st[key + "_deriv"] = st.get(key + "_deriv", 0) + 1
+    err = abs(Fraction(v) - exact)
+    if maj > 0 and err > slack:
+        st["worst_ratio_proved"] = max(st.get("worst_ratio_proved", 0.0), float(err / bound))
+    if err > bound + slack:
+        ctx.report("outside-proved-envelope", {"table": table, "x": xs, "centers": cs, "precision": prec, "impl": v, "exact": "%s" % exact,
+                   "majorant": "%s" % maj, "case_line": c, "table_line": st.get("_table_line"),
+                   "replay_cmd": "VERIF_SEED=%d python3 bin/check.py %s --tier %s" % (ctx.seed, ctx.prop, ctx.tier)},
+                   "C02 proved envelope (%s): |impl - exact derivative| = %.6g exceeds 2*K*eps*majorant = %.6g (impl %.17g, exact %.17g) at an interior point" % (what, float(err), float(bound), v, float(exact)))
+
+def proved_line(ctx, table, c, i, m, st):
+    w = c.split(); nd = table["ndim"]; mw = m.split()
+    if len(mw) < 6 or mw[5] == "-": return
+    if w[0] == "V":
+        mask = int(w[2]); flagged = [bool((mask >> d) & 1) for d in range(nd)]; rest = w[3:]
+    else:
+        ks = [int(z) for z in w[2:2 + nd]]
+        if any(k > 1 for k in ks): return
+        flagged = [k == 1 for k in ks]; rest = w[2 + nd:]
+    xs = [E.dbl(z) for z in rest[:nd]]; cs = [int(z) for z in rest[nd:2 * nd]]
+    spec, mag, cmax, maj = Fraction(mw[2]), Fraction(mw[3]), Fraction(mw[4]), Fraction(mw[5])
+    if interior(table, xs, cs):
+        st["majorant_eq_spec_magnitude"] = st.get("majorant_eq_spec_magnitude", 0) + (1 if maj == mag else 0)
+        st["majorant_cases"] = st.get("majorant_cases", 0) + 1
+    check_proved(ctx, table, c, w[1], flagged, xs, cs, E.dbl(i), spec, maj, cmax, st, "ndsplineeval bitmask" if w[0] == "V" else "ndsplineeval_deriv orders<=1")
 
 def high_order_at_upper_knot(table, c):
     w = c.split()
@@ -32,13 +100,65 @@ def line_checker(ctx, table, c, i, m, n, st):
             return
         V.check_value_line(ctx, table, c2, i, m, n, st)
         st.setdefault("deriv_lines", 0); st["deriv_lines"] += 1
+        proved_line(ctx, table, c, i, m, st)
     else:
         V.check_value_line(ctx, table, c, i, m, n, st)
+        proved_line(ctx, table, c, i, m, st)
+
+def gradient_pass(ctx, mode, st):
+    """Every lane of ndsplineeval_gradient against the exact lane and the proved majorant (C02_gradient_rounding_envelope):
+    a second driver run on `GX` lines made from the (distinct consecutive) G lines of the case file."""
+    base = os.path.join(ctx.scratch, "C02" + mode)
+    cases, impl = base + ".in", base + ".impl"
+    if not (os.path.exists(cases) and os.path.exists(impl)): return
+    gin, gout = base + ".gx.in", base + ".gx.model"
+    todo = []; nout = 0; last = None
+    with open(cases) as fc, open(impl) as fi, open(gin, "w") as fo:
+        for c, i in zip(fc, fi):
+            c = c.rstrip("\n"); i = i.rstrip("\n")
+            if c.startswith("T "):
+                fo.write(c + "\n"); todo.append(("T", c, None, nout)); nout += 1; last = None
+            elif c.startswith("G "):
+                key = " ".join(c.split()[2:])
+                if key != last: fo.write("GX " + key + "\n"); nout += 1; last = key
+                todo.append(("G", c, i, nout - 1))
+    if not ctx.run_driver("EV", gin, gout):
+        ctx.tie_ok = False; ctx.broken.append({"kind": "driver failed (GX)"}); return
+    out = [l.strip() for l in open(gout)]
+    table = None; cmax = Fraction(0)
+    for kind, c, i, k in todo:
+        if k >= len(out):
+            ctx.tie_ok = False; ctx.broken.append({"kind": "driver output short (GX)"}); return
+        m = out[k]
+        if kind == "T":
+            table = E.parse_table(c.split()); st["_table_line"] = c
+            cmax = table_cmax(table, c)
+            continue
+        judge_lanes(ctx, table, c, i, m, cmax, st)
+
+def table_cmax(table, tline):
+    import struct
+    cf = [struct.unpack("f", struct.pack("I", int(z)))[0] for z in tline.split()[-table["ncoef"]:]] if table["ncoef"] else []
+    return max([Fraction(abs(x)) for x in cf if x == x and not math.isinf(x)] + [Fraction(0)])
+
+def judge_lanes(ctx, table, c, i, m, cmax, st):
+    """one G line: implementation lanes `i`, driver's `GX` answer `m` (exact lane, majorant pairs)"""
+    if m in ("refused", "inexact", "bad-input") or i == "refused": return
+    w = c.split(); nd = table["ndim"]; prec = w[1]
+    xs = [E.dbl(z) for z in w[2:2 + nd]]; cs = [int(z) for z in w[2 + nd:2 + 2 * nd]]
+    if any(d["order"] == 0 for d in table["dims"]): return    # hypothesis `hord` of C02_gradient_rounding_envelope
+    mw = m.split(); iw = i.split()
+    if len(mw) != 2 * (nd + 1) or len(iw) != nd + 1: return
+    for lane in range(nd + 1):
+        flagged = [lane == d + 1 for d in range(nd)]
+        st["gradient_lanes_checked"] = st.get("gradient_lanes_checked", 0) + 1
+        check_proved(ctx, table, c, prec, flagged, xs, cs, E.dbl(iw[lane]), Fraction(mw[2 * lane]), Fraction(mw[2 * lane + 1]), cmax, st, "gradient lane %d" % lane)
 
 def run(ctx):
     ctx.audit()
     if ctx.tier == "quick": st, dist = V.run_profile(ctx, "C02", 150, 20, 2500, line_checker=line_checker)
     else: st, dist = V.run_profile(ctx, "C02", 600, 35, 6000, modes=("shipped", "san"), line_checker=line_checker)
+    for mode in (("shipped",) if ctx.tier == "quick" else ("shipped", "san")): gradient_pass(ctx, mode, st)
     ctx.coverage["evaluations"] = st["values"] + st["lookups"]
     ctx.coverage["distinct_nontrivial"] = len(st["distinct"])
     ctx.coverage["rule"] = "profile C02 of harness/eval_harness.cpp: C01's table space (mostly non-repeated knots), random derivative bitmasks (all subsets), ndsplineeval_deriv with per-dimension derivative orders 0..order+1 (orders >= 2 only on strictly increasing knots), both precisions; non-trivial = lookup ok and value inside the envelope; distinct = distinct case lines"
@@ -46,7 +166,31 @@ def run(ctx):
     ctx.coverage["bit_exact_values"] = st["values"] - st["bit_mismatch"]
     ctx.coverage["worst_envelope_ratio"] = st["worst_ratio"]
     ctx.coverage["known_finding_cases"] = st["known_cases"]
-    ctx.assumptions += ["rounding envelope assumed (K as in C01, magnitudes with |a|+|b| per difference)", "'true derivative' = derivative of the selected polynomial piece (one-sided convention of C01)"]
+    ctx.coverage["cases_under_rounding_theorem"] = st.get("proved_cases", 0)
+    ctx.coverage["of_which_with_a_derivative"] = st.get("proved_cases_deriv", 0)
+    ctx.coverage["gradient_lanes_under_rounding_theorem"] = st.get("proved_lanes", 0)
+    ctx.coverage["gradient_lanes_seen"] = st.get("gradient_lanes_checked", 0)
+    ctx.coverage["worst_ratio_vs_proved_bound"] = st.get("worst_ratio_proved", 0.0)
+    ctx.coverage["proved_majorant_equals_spec_level_magnitude"] = "%d of %d interior cases" % (st.get("majorant_eq_spec_magnitude", 0), st.get("majorant_cases", 0))
+    ctx.assumptions += ["rounding: proved for bitmask derivatives, gradient lanes and ndsplineeval_deriv with orders <= 1 at interior points without underflow/overflow (C02_rounded_deriv_near_spec_partial, C02_gradient_rounding_envelope, C02_deriv_orders_rounding_envelope_partial: |impl - exact| <= 2*K*eps*majorant, the majorant computed by the driver from the theorem's own definition; an absolute underflow allowance is added, it is not part of the theorem); margins, knots of the partially supported range and derivative orders >= 2 stay with the measured envelope (K as in C01, magnitudes with |a|+|b| per difference)", "'true derivative' = derivative of the selected polynomial piece (one-sided convention of C01)"]
 
 def replay(ctx, path):
-    V.replay(ctx, path, line_checker=line_checker)
+    st = {"values": 0, "bit_mismatch": 0, "worst_ratio": 0.0, "distinct": set(), "known_cases": 0, "lookups": 0}
+    def handler(table, tw, c, i, m):
+        st["_table_line"] = tw
+        k = c[:1]
+        if k in "VD": line_checker(ctx, table, c, i, m, 0, st)
+        elif k == "S":
+            bad = E.lookup_oracle(table, [E.dbl(z) for z in c.split()[1:]], i)
+            if bad: ctx.report("lookup:" + bad, {"table": table, "impl": i, "table_line": tw, "case_line": c}, "lookup oracle: " + bad)
+        elif k == "G":
+            if i.strip() != m.strip():
+                ctx.tie_ok = False; ctx.broken.append({"kind": "correspondence: gradient lanes bits != model", "case_line": c, "impl": i, "model": m})
+            gin = os.path.join(ctx.scratch, "replay.gx.in"); gout = gin + ".model"
+            with open(gin, "w") as f: f.write(tw.strip() + "\n" + "GX " + " ".join(c.split()[2:]) + "\n")
+            if ctx.run_driver("EV", gin, gout):
+                out = [l.strip() for l in open(gout)]
+                if len(out) >= 2: judge_lanes(ctx, table, c, i, out[1], table_cmax(table, tw), st)
+        elif (i.strip() != m.split()[0]) if m.split() else True:
+            ctx.tie_ok = False; ctx.broken.append({"kind": "correspondence bits", "case_line": c, "impl": i, "model": m})
+    if not E.replay_case(ctx, path, handler): run(ctx)
